@@ -44,7 +44,17 @@ Definition w_failed (w : wres) : bool := match w with WOk => false | _ => true e
 Inductive iomode := Mono | Threaded (n : nat).
 
 (* what the writers of one stripe will add to io->writer_error[], and the iteration whose io_write_next sees it *)
-Record wrep := mkWR { wr_due : option nat; wr_eio : nat; wr_err : nat }.
+(* wr_pos = the stripe of the failed write: since the repair 0ecd44a of F-C08-parity-write-error-recorded-synced the writer files
+   it (io_writer_bad) together with its error counter, io_write_bad hands it to sync right after the io_write_next that sees the
+   counter -- and once more after io_stop at `bail:`, which every exit of the loop reaches -- and sync marks that stripe bad *)
+Record wrep := mkWR { wr_due : option nat; wr_eio : nat; wr_err : nat; wr_pos : nat }.
+
+(* info_set(pos, info_set_bad(info_get(pos))): the CURRENT info word with the bad flag; an absent word is 0 *)
+Definition mark_bad (oi : option info) : option info :=
+  Some (match oi with Some i => mkInfo (i_time i) true (i_rehash i) (i_justsynced i) | None => mkInfo 0 true false false end).
+Definition mark_bad_at (c : content) (pos : nat) : content :=
+  mkC (c_disks c) (set_ext None pos (mark_bad (nth pos (c_info c) None)) (c_info c)) (c_blockmax c).
+Definition mark_bad_all (c : content) (ps : list nat) : content := fold_left mark_bad_at ps c.
 
 Definition eff_lag (n lag : nat) : nat := Nat.max 1 (Nat.min lag (n - 1)).
 (* the iteration whose io_write_next sees the report of a write queued at iteration `it` (lagv = the schedule of that writer) *)
@@ -63,15 +73,18 @@ Definition write_levels (par : parity) (pos : nat) (v : list bid) (wl : nat -> w
 Definition level_reports (m : iomode) (lag : nat -> nat -> nat) (it pos : nat) (wl : nat -> wres) (nl : nat) : list wrep :=
   flat_map (fun l => match wl l with
                      | WOk => []
-                     | WEio => [mkWR (report_due m (lag pos l) it) 1 0]
-                     | WErr => [mkWR (report_due m (lag pos l) it) 0 1]
+                     | WEio => [mkWR (report_due m (lag pos l) it) 1 0 pos]
+                     | WErr => [mkWR (report_due m (lag pos l) it) 0 1 pos]
                      end) (seq 0 nl).
 
 (* sync.c `end:` after the repair 1304269: io_stop, then the counters filled since the last io_write_next are drained *)
 Definition flush_counts (q : list wrep) (ne ni : nat) : nat * nat :=
   ((if (0 <? sum_err q)%nat then S ne else ne), (if (0 <? sum_eio q)%nat then S ni else ni)).
 
-Record wrun := mkWRun { w_run : run_out; w_lost : list wrep; w_nfail : nat; w_iters : nat }.
+(* w_fpos = the stripes of the failed pwrites of the run (one entry per failing level), in order; w_lost = reports never COUNTED
+   (only on a bail; their stripes are marked bad all the same) *)
+Record wrun := mkWRun { w_run : run_out; w_lost : list wrep; w_fpos : list nat; w_iters : nat }.
+Definition w_nfail (r : wrun) : nat := length (w_fpos r).
 
 Definition run_failing (r : run_out) : bool := negb ((ro_nerr r + ro_nsilent r + ro_nio r =? 0)%nat).
 
@@ -81,41 +94,43 @@ Section SyncW.
   Variable nlev : nat.
 
   (* wf pos l = outcome of the pwrite of level l for stripe pos;  lag pos l = schedule of that write's report;  it = number of
-     stripes processed so far (the loop iteration);  q = reports not yet seen by the caller;  nfail = failed pwrites so far *)
+     stripes processed so far (the loop iteration);  q = reports not yet seen by the caller;  fp = stripes of the failed pwrites so far *)
   Fixpoint sync_loop_w (o : sopts) (now : N) (fs : list (option fsdisk)) (faults : nat -> list (option rd))
            (wf : nat -> nat -> wres) (m : iomode) (lag : nat -> nat -> nat)
-           (stripes : list nat) (stop : option nat) (it : nat) (q : list wrep) (nfail : nat)
+           (stripes : list nat) (stop : option nat) (it : nat) (q : list wrep) (fp : list nat)
            (c : content) (par : parity) (ne ns ni : nat) : wrun :=
     match stripes with
-    | [] => mkWRun (mkRun c par (fst (flush_counts q ne ni)) ns (snd (flush_counts q ne ni)) false) [] nfail it
+    | [] => mkWRun (mkRun (mark_bad_all c (map wr_pos q)) par (fst (flush_counts q ne ni)) ns (snd (flush_counts q ne ni)) false) [] fp it
     | pos :: rest =>
         let slots := map (fun od => match od with Some d => slot_at d pos | None => SEmpty end) (c_disks c) in
-        if negb (stripe_enabled o slots) then sync_loop_w o now fs faults wf m lag rest stop it q nfail c par ne ns ni else
+        if negb (stripe_enabled o slots) then sync_loop_w o now fs faults wf m lag rest stop it q fp c par ne ns ni else
         match stop with
-        | Some O => mkWRun (mkRun c par (fst (flush_counts q ne ni)) ns (snd (flush_counts q ne ni)) false) [] nfail it
+        | Some O => mkWRun (mkRun (mark_bad_all c (map wr_pos q)) par (fst (flush_counts q ne ni)) ns (snd (flush_counts q ne ni)) false) [] fp it
         | _ =>
             let r := sync_stripe hashf bs nlev o now ni c (map (fun lv => nth pos lv PNone) par) fs (faults pos) pos in
             let ne1 := (ne + so_nerr r)%nat in let ns1 := (ns + so_nsilent r)%nat in let ni1 := (ni + so_nio r)%nat in
-            if so_bail r then mkWRun (mkRun (so_content r) par ne1 ns1 ni1 true) q nfail it else
+            (* a fatal read error: goto bail, io_stop, the stripes of all the failed writes still pending are marked bad *)
+            if so_bail r then mkWRun (mkRun (mark_bad_all (so_content r) (map wr_pos q)) par ne1 ns1 ni1 true) q fp it else
             (* the stripe's blocks are handed to the writers (threaded: queued, executed at the latest when io_stop
                drains; single-thread: written now) and their report is filed for the iteration that will see it ... *)
             let par' := match so_write r with Some v => write_levels par pos v (wf pos) | None => par end in
             let reps := match so_write r with Some _ => level_reports m lag it pos (wf pos) (length par) | None => [] end in
             let qa := q ++ reps in
-            let nfail' := (nfail + length reps)%nat in
+            let fp' := fp ++ map wr_pos reps in
             (* ... io_write_next drains the counters filled so far: in threaded mode those of earlier stripes only
-               (a report is due at it + lag >= it + 1), in single-thread mode exactly those of this stripe *)
+               (a report is due at it + lag >= it + 1), in single-thread mode exactly those of this stripe;
+               io_write_bad then gives the stripes of these failed writes, which are marked bad (sync.c:1273-1277) *)
             let seen := filter (is_due it) qa in
             let q2 := filter (fun w => negb (is_due it w)) qa in
             let ceio := sum_eio seen in let cerr := sum_err seen in
-            (* sync.c:1258-1286 *)
+            (* sync.c:1279-1308; on a bail the marks of ALL the failed writes are made after io_stop *)
             let ni2 := if (0 <? ceio)%nat then S ni1 else ni1 in
             if (0 <? ceio)%nat && (o_io_error_limit o <=? ni2)%nat
-            then mkWRun (mkRun (so_content r) par' ne1 ns1 ni2 true) q2 nfail' it else
+            then mkWRun (mkRun (mark_bad_all (so_content r) (map wr_pos qa)) par' ne1 ns1 ni2 true) q2 fp' it else
             if (0 <? cerr)%nat
-            then mkWRun (mkRun (so_content r) par' (S ne1) ns1 ni2 true) q2 nfail' it else
+            then mkWRun (mkRun (mark_bad_all (so_content r) (map wr_pos qa)) par' (S ne1) ns1 ni2 true) q2 fp' it else
             sync_loop_w o now fs faults wf m lag rest (match stop with Some (S k) => Some k | _ => None end)
-                        (S it) q2 nfail' (so_content r) par' ne1 ns1 ni2
+                        (S it) q2 fp' (mark_bad_all (so_content r) (map wr_pos seen)) par' ne1 ns1 ni2
         end
     end.
 End SyncW.
